@@ -382,3 +382,12 @@ Definition write_ok (closing : bool) (q : req) (r : resp) : bool :=
 Definition conn_survives (closing : bool) (q : req) (r : resp) : bool :=
   write_ok closing q r && negb (r_close (prepare closing q r)) &&
   negb (is_connect_ok q r) (* a successful CONNECT turns the connection into a tunnel *).
+
+(* ------------------------------------------------------------------ http.Handler variant (proxy_handler.go writeResponse) *)
+(* there the body is copied DECODED to the server's ResponseWriter, one write per read from
+   the upstream body; which writes are followed by a flush of the ResponseWriter: *)
+Definition handler_flushes (meth : str) (r : resp) (reads : list str) : list bool :=
+  if should_chunk meth r then
+    (if hw_unknown_length_flushes_every_write then map nonempty reads else flush_flags chunk_flush_patterns reads)
+  else if is_sse (r_hdr r) then flush_flags sse_flush_patterns reads
+  else map (fun _ => false) reads.
